@@ -1580,6 +1580,11 @@ func (t *Topic) thisUserSub(sess *Session, pkt *ClientComMessage, asUid types.Ui
 			if modeWant == types.ModeUnset {
 				// User wants default access mode.
 				userData.modeWant = t.accessFor(asLvl)
+			} else if modeWant.IsOwner() {
+				// Ownership can be obtained only by accepting a transfer from the current owner,
+				// a new subscriber cannot request it.
+				sess.queueOut(ErrPermissionDeniedReply(pkt, now))
+				return nil, errors.New("new subscriber cannot request ownership")
 			} else {
 				userData.modeWant = modeWant
 			}
